@@ -152,6 +152,13 @@ GRAPHS = [
         D("DE", "struct DerivesEmpty : EmptyBase { int x; };", needs=["EB"]),
         D("TE", "template <typename T> struct TEmpty {}; struct UsesTE { TEmpty<int> t; Empty arr[2]; };", needs=["E"]),
     ], []),
+    ("cpp-template-definition-float", "cpp", [
+        D("W", "template <typename T> struct W { T v; float w; };"),
+        D("H", "struct H { W<int> a; int k; };", needs=["W"], fwd="struct H;"),
+        D("H2", "struct H2 { H h[2]; };", needs=["H"]),
+        D("WC", "typedef W<char> WC;", needs=["W"]),
+        D("H3", "struct H3 { WC c; H *p; };", needs=["WC"], weak=["H"]),
+    ], []),
     ("cpp-type-param-array", "cpp", [
         D("TA", "template <typename T> struct TA { T data[8]; };"),
         D("TB", "template <typename T> struct TB { TA<T> inner; int n; };", needs=["TA"]),
